@@ -271,7 +271,7 @@ structure Env where
 structure BinAttrs where
   use01 : Bool
   alpha : Arg
-  sa : AxisSpec
+  sa : AxisArg
   eps : EpsSpec
   minE : ExpArg
   maxE : ExpArg
@@ -291,38 +291,66 @@ def BinObj.new (a : BinAttrs) : BinObj := { a := a, scale := Option.none }
 def BinAttrs.ofStochastic (alpha : Arg) : BinAttrs :=
   { use01 := false, alpha := alpha, sa := .none, eps := .none, minE := .none, maxE := .none }
 
-/-- the configuration a call works with: attributes as they are NOW, data format as it is NOW.  The
-    exponent bounds are only evaluated on the "auto_po2" path (`_clip_po2_scale`). -/
-def BinAttrs.cfg (env : Env) (o : BinAttrs) : Except Err BinCfg :=
+/-- `scale_axis` as the call sees it: only consulted on the data-dependent paths for inputs of rank > 1
+    (`_get_scale_mean`); negative axes with `elements_per_scale` are not modelled (rejected here) -/
+def BinAttrs.axis (o : BinAttrs) (a : Alpha) (rank : Nat) : Except Err AxisSpec :=
+  match a with
+  | .auto | .autoPo2 =>
+    if rank ≤ 1 then .ok .none
+    else match axisOfArg o.sa, o.eps with
+      | .error e, _ => .error e
+      | .ok sa, .none => .ok sa
+      | .ok sa, _ => if o.sa.nonneg then .ok sa else .error .assert
+  | _ => .ok .none
+
+/-- the configuration a call on an input of rank `rank` works with: attributes as they are NOW, data
+    format as it is NOW.  The exponent bounds are only evaluated on the "auto_po2" path (`_clip_po2_scale`). -/
+def BinAttrs.cfg (env : Env) (o : BinAttrs) (rank : Nat) : Except Err BinCfg :=
   match alphaOfArg o.alpha with
   | .error e => .error e
   | .ok a =>
-    let grp : Grp := { chLast := env.chLast, sa := o.sa, eps := o.eps }
-    match a with
-    | .autoPo2 =>
-      match expOfArg o.minE, expOfArg o.maxE with
-      | .ok mn, .ok mx => .ok { use01 := o.use01, alpha := a, grp := grp, minE := mn, maxE := mx }
-      | .error e, _ => .error e
-      | _, .error e => .error e
-    | _ => .ok { use01 := o.use01, alpha := a, grp := grp, minE := Option.none, maxE := Option.none }
+    match o.axis a rank with
+    | .error e => .error e
+    | .ok sa =>
+      let grp : Grp := { chLast := env.chLast, sa := sa, eps := o.eps }
+      match a with
+      | .autoPo2 =>
+        match expOfArg o.minE, expOfArg o.maxE with
+        | .ok mn, .ok mx => .ok { use01 := o.use01, alpha := a, grp := grp, minE := mn, maxE := mx }
+        | .error e, _ => .error e
+        | _, .error e => .error e
+      | _ => .ok { use01 := o.use01, alpha := a, grp := grp, minE := Option.none, maxE := Option.none }
 
 /-- `q(x)`: the output, and the object afterwards (`self.scale` is assigned only when the call succeeds;
     nothing else is written, and `self.scale` is never READ) -/
 def BinObj.call (c : Fl) (env : Env) (o : BinObj) (shape : List Nat) (x : List Rat) :
     Except Err (List Elt) × BinObj :=
-  match o.a.cfg env with
+  match o.a.cfg env shape.length with
   | .error e => (.error e, o)
   | .ok cfg =>
     match binary c cfg shape x with
     | .error e => (.error e, o)
     | .ok es => (.ok es, { o with scale := some (es.map (·.scale)) })
 
+/-- `q(x)` with `x` a numpy array (anything whose `.shape` is a tuple, not a `TensorShape`): the same,
+    EXCEPT on the `elements_per_scale` path — `_get_scale_mean` reads `x.shape.as_list()` without the
+    `except AttributeError` fallback `_get_least_squares_scale` (and both `__call__`s) have, so the call
+    raises AttributeError there (reported with the non-assert error kind) -/
+def BinObj.callNp (c : Fl) (env : Env) (o : BinObj) (shape : List Nat) (x : List Rat) :
+    Except Err (List Elt) × BinObj :=
+  match o.a.cfg env shape.length with
+  | .ok cfg =>
+    if (cfg.alpha == .auto || cfg.alpha == .autoPo2) && decide (1 < shape.length) && cfg.grp.eps != .none
+    then (.error .valueError, o) else o.call c env shape x
+  | .error _ => o.call c env shape x
+
 /-- what can be done to a live object between / instead of calls -/
 inductive BinOp
   | call (shape : List Nat) (x : List Rat)
+  | callNp (shape : List Nat) (x : List Rat)   -- the input is a numpy array
   | setAlpha (a : Arg)
   | setUse01 (b : Bool)
-  | setAxis (sa : AxisSpec) (eps : EpsSpec)
+  | setAxis (sa : AxisArg) (eps : EpsSpec)
   | setBounds (mn mx : ExpArg)
   | setTrainable               -- `_set_trainable_parameter()`: alpha None → "auto_po2" (what a layer does)
   | setFormat (chLast : Bool)  -- `K.set_image_data_format(...)`
@@ -330,6 +358,7 @@ inductive BinOp
 /-- what an operation does to the attributes (calls and format switches do nothing to them) -/
 def BinAttrs.set (o : BinAttrs) : BinOp → BinAttrs
   | .call _ _ => o
+  | .callNp _ _ => o
   | .setAlpha a => { o with alpha := a }
   | .setUse01 b => { o with use01 := b }
   | .setAxis sa eps => { o with sa := sa, eps := eps }
@@ -351,6 +380,9 @@ def binStep (c : Fl) (st : BinSt) (op : BinOp) : BinSt :=
   match op with
   | .call shape x =>
     let r := st.obj.call c st.env shape x
+    { env := st.env, obj := r.2, outs := st.outs ++ [r.1] }
+  | .callNp shape x =>
+    let r := st.obj.callNp c st.env shape x
     { env := st.env, obj := r.2, outs := st.outs ++ [r.1] }
   | op => { env := st.env.step op, obj := { st.obj with a := st.obj.a.set op }, outs := st.outs }
 
